@@ -274,6 +274,28 @@ func c06Run(role int64, withPending bool, frame []byte) (obs []int64, verdictKin
 		obs = []int64{-int64(len(frames)), 0}
 	}
 	obs = append(obs, b2i(completed), b2i(calls > 0))
+	// a frame that announces a CALL and carries a usable id is answered, whatever else is wrong with it: exactly one
+	// frame with that id goes back (a CALL_ERROR, or the CALL_RESULT of a handler that was reached)
+	if monKind == "" && len(arr) >= 3 {
+		var typ float64
+		var id string
+		var whole []interface{}
+		// (a text that encoding/json cannot decode as a whole, e.g. a number out of range, is not a frame for the library; an
+		// id longer than the 36 characters OCPP allows cannot be echoed in a legal CALL_ERROR)
+		if json.Unmarshal(frame, &whole) == nil && json.Unmarshal(arr[0], &typ) == nil && typ == 2 && json.Unmarshal(arr[1], &id) == nil && id != "" && len([]rune(id)) <= 36 {
+			n := 0
+			for _, fr := range frames {
+				var a2 []json.RawMessage
+				var rid string
+				if json.Unmarshal(fr, &a2) == nil && len(a2) >= 2 && json.Unmarshal(a2[1], &rid) == nil && rid == id {
+					n++
+				}
+			}
+			if n != 1 {
+				monKind, monDetail = "C06-call-not-answered", fmt.Sprintf("a CALL frame with id %q got %d replies carrying that id (%d frames written)", id, n, len(frames))
+			}
+		}
+	}
 	// ---- afterwards: the endpoint must still be usable
 	if withPending && !completed {
 		cbFired = false
